@@ -319,3 +319,100 @@ class ApplyLayoutCastSubviewGlobal_guard_contract:
 
     def canary(sh, a, ret):
         check("canary: the global is never looked up", SG["lookups"] == 0)
+
+
+# =====================================================================================
+# set-memory-space: every memref operand of a compute op ends up in local memory
+# =====================================================================================
+from pyvc.api import mk_ident_value  # noqa: E402
+from xdsl.dialects.builtin import IndexType  # noqa: E402
+
+from snaxc.transforms.set_memory_space import InitStreamAndLinalgMemorySpace  # noqa: E402
+from snaxc.util.snax_memory import L1, L3  # noqa: E402
+
+
+class ComputeOpView(Operation):
+    """a linalg.generic / dart.operation as far as the pattern looks at it: its operands"""
+
+    def __init__(self, operands):
+        self._init_op(list(operands), [], [])
+
+
+SPACE_CASES = [
+    ("L3",), ("none",), ("other",), ("L1",), ("index",), ("L1", "L3"), ("none", "L1", "other"), ("L3", "=0"), ("other", "index", "=0"),
+    ("L3+cast",), ("none+cast",), ("other+cast", "L3"), ("L3+cast_elsewhere",), ("none", "L3+cast", "=0"),
+]
+
+
+def space_attr(kind):
+    return dict(L1=L1.attribute, L3=L3.attribute, none=NoneAttr(), other=StringAttr("L2"))[kind]
+
+
+@contract
+class InitStreamAndLinalgMemorySpace_contract:
+    """afterwards EVERY memref operand of the compute op is in L1 - whatever memory space it came from (L3, no space at all,
+    any other space): it is the result of a memory-space cast of the original value (same element type, shape, layout;
+    an existing cast to L1 is reused); operands already in L1 and non-memref operands are left alone"""
+    target = "snaxc.transforms.set_memory_space.InitStreamAndLinalgMemorySpace.match_and_rewrite"
+    shapes = [dict(operands=c) for c in SPACE_CASES]
+    native = False
+    total = True
+    permissive = True
+    compare_ret = False
+
+    def args(sh, sym):
+        vals, casts = [], {}
+        for k, spec in enumerate(sh["operands"]):
+            if spec.startswith("="):
+                vals.append(vals[int(spec[1:])])
+                continue
+            kind = spec.split("+")[0]
+            if kind == "index":
+                vals.append(mk_ident_value(100 + k, IndexType()))
+                continue
+            v = mk_ident_value(100 + k, MemRefType(i32, [4, 8], NoneAttr(), space_attr(kind)))
+            if "+cast" in spec:
+                target = StringAttr("L2b") if spec.endswith("elsewhere") else L1.attribute
+                c = memref.MemorySpaceCastOp.from_type_and_target_space(v, v.type, target)
+                v.uses.append(Use(c, 0))
+                casts[k] = c
+            vals.append(v)
+        op = ComputeOpView(vals)
+        for k, v in enumerate(vals):
+            v.uses.append(Use(op, k))
+        return [op, vals, casts]
+
+    def run(sh, a):
+        rw = PatternRewriter(a[0])
+        InitStreamAndLinalgMemorySpace().match_and_rewrite(a[0], rw)
+        return rw.log
+
+    def ensures(sh, a, ret):
+        op, vals, casts = a
+        inserted = [o for e in ret if e[0] == "insert_op" for o in e[1]]
+        check("nothing but memory-space casts is inserted, in front of the op", all(isinstance(o, memref.MemorySpaceCastOp) for o in inserted)
+              and all(e[0] == "insert_op" and (e[2] is None or (e[2].kind == "before" and e[2].anchor is op)) for e in ret))
+        check("the op keeps its number of operands", len(op.operands) == len(vals))
+        for k in range(min(len(vals), len(op.operands))):
+            now, was = op.operands[k], vals[k]
+            if not isinstance(was.type, MemRefType):
+                check(f"operand {k} (not a memref) is left alone", now is was)
+            elif was.type.memory_space == L1.attribute:
+                check(f"operand {k} (already in L1) is left alone", now is was)
+            else:
+                check(f"operand {k}: now in L1", isinstance(now.type, MemRefType) and now.type.memory_space == L1.attribute)
+                c = now.owner
+                check(f"operand {k}: the L1 value is a memory-space cast of the original value - same element type, shape and layout",
+                      isinstance(c, memref.MemorySpaceCastOp) and c.source is was and now is c.dest and now.type.element_type == was.type.element_type
+                      and now.type.get_shape() == was.type.get_shape() and now.type.layout == was.type.layout)
+                mine = [j for j in casts if vals[j] is was and casts[j].dest.type.memory_space == L1.attribute]
+                if len(mine) > 0:
+                    check(f"operand {k}: the existing cast to L1 is reused", c is casts[mine[0]] and not any(o is c for o in inserted))
+                else:
+                    check(f"operand {k}: its cast is one of the inserted ops", any(o is c for o in inserted))
+        check("every inserted cast casts one of the op's own operands that is not in L1 yet, to L1",
+              all(any(o.source is v for v in vals) and isinstance(o.source.type, MemRefType) and o.source.type.memory_space != L1.attribute
+                  and o.dest.type.memory_space == L1.attribute for o in inserted))
+
+    def canary(sh, a, ret):
+        check("canary: no cast is ever inserted", len(ret) == 0 and any(s.split("+")[0] in ("L3", "none", "other") for s in sh["operands"]))
